@@ -161,6 +161,15 @@ ParseReal(s) ==
 RECURSIVE DigitsOf(_)
 DigitsOf(n) == IF n < 10 THEN <<48 + n>> ELSE DigitsOf(n \div 10) \o <<48 + (n % 10)>>
 IntText(i) == IF i < 0 THEN <<45>> \o DigitsOf(-i) ELSE DigitsOf(i)
+\* the decimal text of an integer in [b, i] form (TLC integers are 32-bit: the high digits are constant, the low ones computed)
+PadDigits(n, w) == LET d == DigitsOf(n) IN [j \in 1..(w - Len(d)) |-> 48] \o d
+IntTextB(v) ==
+  CASE v.b = 0  -> IntText(v.i)
+    [] v.b = 1  -> <<57, 50, 50, 51, 51, 55, 50, 48, 51, 54, 56, 53, 52>> \o PadDigits(775807 + v.i, 6)            \* 9223372036854|775807 + i  (i <= 0)
+    [] v.b = -1 -> <<45, 57, 50, 50, 51, 51, 55, 50, 48, 51, 54, 56, 53, 52>> \o PadDigits(775808 - v.i, 6)        \* -(9223372036854|775808 - i)  (i >= 0)
+    [] v.b = 2  -> <<52, 50, 57, 52, 57>> \o PadDigits(67296 + v.i, 5)                                              \* 42949|67296 + i
+    [] v.b = 3  -> <<57, 48, 48, 55, 49, 57, 57, 50, 53, 52, 55>> \o PadDigits(40992 + v.i, 5)                      \* 90071992547|40992 + i
+    [] v.b = 4  -> <<50, 49, 52, 55, 52>> \o PadDigits(83648 + v.i, 5)                                              \* 21474|83648 + i
 
 -----------------------------------------------------------------------------
 LowerC(c) == IF c >= 65 /\ c <= 90 THEN c + 32 ELSE IF c = 201 THEN 233 ELSE c
@@ -217,7 +226,7 @@ ArithV(f, a, b) ==
 \* the Display form used by ::text (and by the text / CSV printers)
 NoText == <<-1>>
 TextOf(v) ==
-  CASE v.t = "int" /\ v.b = 0 -> IntText(v.i)
+  CASE v.t = "int" -> IntTextB(v)
     [] v.t = "bool" -> IF v.v THEN <<116, 114, 117, 101>> ELSE <<102, 97, 108, 115, 101>>
     [] v.t = "real" /\ v.c = "fin" /\ v.d <= 4 ->
          LET neg == v.n < 0
